@@ -943,7 +943,8 @@ MANIFEST = {
 	'level_text': (
 		'Each clause of the property is a Lean theorem over the model of AstPostProcessor/ast.py copy methods, for all schemas '
 		'(expand_layout_eq_subst against the declarative Subst relation, named_prefixing, named_repointing, named_preserves, '
-		'factory_type_closest_abstract, attributes_inherited_in_order, inline_structs_omitted, unnamed_terminates); the model is tied to the '
+		'factory_type_closest_abstract, attributes_inherited_in_order, inline_structs_omitted, unnamed_terminates) and the boundary of the '
+		'order hypothesis from the other side (late_template_breaks_layout, template_placeholder_rejected, factory_type_depends_on_order); the model is tied to the '
 		'code by a differential run on random parsed schemas and both shipped schema sets, comparing every struct after every phase.'),
 	'level_note': (
 		'Trusted: Lean kernel + {propext, Classical.choice, Quot.sound}; hand-written model tied by differential execution only; theorems about '
